@@ -182,8 +182,12 @@ func callSites(fn *ast.FuncDecl) []site {
 					return true
 				}
 				switch sel.Sel.Name {
-				case "parseExpression", "parseProjectionRHS", "parseDotRHS":
-					if len(v.Args) != 1 {
+				case "parseExpression", "parseProjectionRHS", "parseDotRHS", "continueExpression":
+					want := 1
+					if sel.Sel.Name == "continueExpression" {
+						want = 2
+					}
+					if len(v.Args) != want {
 						die("call of %s with %d args", sel.Sel.Name, len(v.Args))
 					}
 					base := fn.Name.Name
@@ -196,7 +200,7 @@ func callSites(fn *ast.FuncDecl) []site {
 					if count[base] > 1 {
 						key += strconv.Itoa(count[base])
 					}
-					out = append(out, site{key, bpArg(v.Args[0])})
+					out = append(out, site{key, bpArg(v.Args[len(v.Args)-1])})
 				}
 			}
 			return true
@@ -262,7 +266,7 @@ func main() {
 
 	// parse call sites
 	p("Inductive bpArg := BPLit (z : Z) | BPTok (t : tokType) | BPArgTok | BPParam.\n")
-	for _, fn := range []string{"Parse", "led", "nud", "parseFunctionArg", "parseMultiSelectList", "parseMultiSelectHash", "projectIfSlice", "parseFilter", "parseDotRHS", "parseProjectionRHS"} {
+	for _, fn := range []string{"Parse", "parseExpression", "led", "nud", "parseFunctionArg", "parseMultiSelectList", "parseMultiSelectHash", "projectIfSlice", "parseFilter", "parseDotRHS", "parseProjectionRHS"} {
 		for _, s := range callSites(findFunc(pars, fn)) {
 			p("Definition site_%s : bpArg := %s.\n", s.key, s.val)
 		}
